@@ -98,7 +98,12 @@ def dump_package(draw, tfp=None, max_res=3, **kw):
         if draw(st.integers(0, 3)) == 0:
             # the resource arrives with the properties of the file it was loaded from
             r['res_extra'] = draw(st.sampled_from([{'encoding': 'latin-1', 'format': 'csv'}, {'encoding': 'utf-16'},
-                                                   {'format': 'csv'}, {'encoding': 'utf-8', 'format': 'json'}]))
+                                                   {'format': 'csv'}, {'encoding': 'utf-8', 'format': 'json'},
+                                                   # ... a CSV dialect of its own (the dumper writes ITS dialect)
+                                                   {'dialect': {'header': False, 'delimiter': ';'}},
+                                                   {'dialect': {'escapeChar': '\\', 'doubleQuote': False, 'quoteChar': "'"}},
+                                                   {'format': 'csv', 'dialect': {'skipInitialSpace': True, 'lineTerminator': '\n',
+                                                                                  'caseSensitiveHeader': True}}]))
     return pkg
 
 
